@@ -61,6 +61,9 @@ def judge(case):
         got = np.asarray(got.todense(), dtype=float)
     except Exception as e:
         return [f"exception {type(e).__name__}: {e}"]
+    original = np.array([NAN if (x is None or x == "nan") else float(x) for x in case["traj"]], dtype=float)
+    if not np.array_equal(traj, original, equal_nan=True):
+        return ["the trajectory array passed to MSM was modified"]
     want, rows, n_windows = naive(traj, n, tau, noncorr)
     if got.shape != (n, n):
         return [f"shape {got.shape} != {(n, n)}"]
